@@ -494,8 +494,7 @@ def collision_files(case, ob):
     """Files whose module name is not theirs alone: shared with another file, with a name already in sys.modules,
     with an ancestor name of a path-named module, or shadowed by `<pkg_root>/<tail>.py` / `<pkg_root>/<tail>/` (finding F12)."""
     pre = set(ob.get("preloaded", []))
-    progs = [f for f, p in case["files"].items() if p is not None]
-    keys = {f: module_key(case, f) for f in progs}
+    keys = {f: module_key(case, f) for f in case["files"]}   # every file can occupy a module name (also empty / non-.py ones)
     cnt = Counter(k for k, _ in keys.values())
     inter = set()
     for f, (k, (kind, _)) in keys.items():
@@ -974,7 +973,7 @@ def shrink_candidates(case):
 def campaign(ctx):
     rng = ctx.rng
     cases = witness_cases()
-    n = ctx.scale(220, 4000)
+    n = ctx.scale(180, 2500)
     for i in range(n):
         cases.append(random_case(rng, f"r{i}"))
     nworkers = 8 if not ctx.thorough else 12
